@@ -411,6 +411,18 @@ class StmtMixin:
             if it.ty == "pylist":
                 yield from self.unroll_for(n, st1, it.py, 0)
                 continue
+            if it.ty in ("slist", "sexp"):
+                # for x in <list of expressions>: iteration p binds x = snth(items, p); iterating an atom (a string) is not modelled
+                items = it.t
+                if it.ty == "sexp":
+                    s_atom = st1.assume(SExp.is_Atom(it.t))
+                    if self.feasible(s_atom):
+                        raise Unsupported("for loop over something that may be an atom (string)")
+                    st1 = st1.assume(SExp.is_Lst(it.t))
+                    items = SExp.items(it.t)
+                snth, slen = self.fn("snth"), self.fn("slen")
+                yield from self.for_symbolic(n, st1, None, virtual=(slen(items), lambda p, items=items: Val(snth(items, p), "sexp")))
+                continue
             yield from self.for_symbolic(n, st1, it)
 
     def unroll_for(self, n, st, items, i):
@@ -464,6 +476,7 @@ class StmtMixin:
             return
         if itername:
             s_in.env[itername] = Val(None, "iter", (seq, pos + 1))
+        s_in.env[f"_i{k}"] = Val(pos, "int")        # ghost: position of loop number k, visible to the invariants of loops nested in it
         if index_name is not None:
             s_in.env[index_name] = Val(pos, "int")
         for s1, fl in self.assign(s_in, elem_target if elem_target is not None else n.target, elem_at(pos), n):
